@@ -199,6 +199,23 @@ PROPS["C07"] = dict(
 )
 
 
+def nt_c12(prog, out, monline=""):
+    return out.count("(LetBinding ") + out.count("(FunctionArg ") >= 3 and out.count("(block ") >= 2
+
+
+PROPS["C12"] = dict(
+    title="Internal value names are unique per function and stable at every use",
+    projection="names",
+    monitor="C12",
+    domain="all",
+    rule="corpus + generated programs; identifiers come from a 14-name pool with dotted and numerically suffixed "
+         "names (x, x.0, x.1, a.b.c, '.', '', y.007, z.+5 ...) to force collisions; non-trivial = the implementation's "
+         "output declares at least three values (parameters + lets) and has at least two blocks; distinct = distinct program texts",
+    nontrivial=nt_c12,
+    assumptions=["the analysis of the program terminates without panic (C13)"],
+)
+
+
 # ------------------------------------------------------------------------------------------------
 # source lints (DESIGN.md §6.2)
 
